@@ -258,8 +258,13 @@ class Array(Base):
                 unit = self.unit
 
         if "out" in kwargs:
-            kwargs["out"][0].unit = unit
-            return kwargs["out"][0]
+            # ufuncs pass a tuple of outputs, array functions (np.sum, np.cumsum,
+            # np.clip...) the output itself
+            out = kwargs["out"]
+            if isinstance(out, tuple):
+                out = out[0]
+            out.unit = unit
+            return out
         else:
             return self.__class__(values=result, unit=unit)
 
